@@ -466,7 +466,33 @@ def statements(ck, ctx):
         ck.ob("statements", "loader-arm|Rule", ok, "Statement::Rule is stored in Loader.rules under its name", span=pw.loc, fn=pw.nname)
 
 
+def spacing(ck, ctx):
+    """"does not depend on spacing or placement of line continuations": between the tokens of a statement the parser skips blanks with
+    Parser::skip_spaces, which also swallows `$`-newline; the scanner's spaces-only skipper is confined to the two places where a
+    continuation cannot occur (the indent of a block line, which must start with a blank, and the leading blanks of the line after a
+    continuation)."""
+    F = ctx.F
+    raw = "scanner::Scanner::skip_spaces"
+    allowed = {"parse::Parser::read_scoped_vars": "indent of a block line (the loop tests peek() == ' ' first)",
+               "parse::Parser::read_escape": "leading blanks of the line after `$`-newline"}
+    sites = [(b, bb, t) for b, bb, t in F.view_call_sites(raw) if F.owner(b.nname).startswith("parse::")]
+    fns = sorted({F.owner(b.nname) for b, _, _ in sites})
+    ck.ob("spacing", "raw-skip-confined", set(fns) == set(allowed), "parse.rs calls the spaces-only skipper only from %s: %s" % (sorted(allowed), fns), span=raw)
+    for b, bb, t in sites:
+        o = F.owner(b.nname)
+        if o not in allowed:
+            ck.ob("spacing", "raw-skip<-%s" % o, False, "%s skips blanks with Scanner::skip_spaces: a `$`-newline continuation at this gap is not skipped" % o, span=t["loc"], fn=o)
+    ck.floor("spaces-only skip sites in parse.rs", len(sites), 2)
+    # the continuation-aware skipper really accepts `$` `\n`
+    pb = ck.need("fn parse::Parser::skip_spaces", F.raw("parse::Parser::skip_spaces"))
+    names = [callee_of(t) for _, t in pb.calls()]
+    ck.ob("spacing", "skip_spaces|continuation", any(n.endswith("Scanner::skip") for n in names) and any(n.endswith("Scanner::peek") for n in names) and any(n.endswith("Scanner::back") for n in names),
+          "Parser::skip_spaces peeks after `$`, consumes the newline with skip, and steps back otherwise", span=pb.loc, fn=pb.nname)
+    ck.functions.add(pb.nname)
+
+
 def run(ck, ctx):
+    spacing(ck, ctx)
     C.adapter_census(ck, ctx, "mapping", ("parse::", "load::", "graph::", "eval::"))
     n = byte_classes(ck, ctx)
     ck.floor("byte-dispatch sites in parse.rs", n, 13)
